@@ -531,10 +531,15 @@ class SymReal(_Num):
         return SymReal(z3.ToReal(_round_half_even(self.t * realval(sc))) / realval(sc))
 
     def __str__(self):
-        raise Realize("str() of symbolic real")
+        return CUR.render_real(self)
+
+    def __repr__(self):
+        return f"<SymReal {self.t}>"
 
     def __format__(self, spec):
-        raise Realize("format() of symbolic real")
+        # the digits of a symbolic real are not modelled: it is rendered as a unique
+        # decimal token that float() maps back to the same symbolic value
+        return CUR.render_real(self)
 
     def is_integer(self):
         return bool(wrap(z3.simplify(z3.IsInt(self.t))))
@@ -831,6 +836,7 @@ class SymCtx:
         self.wall_s = wall_s
         self.max_depth = max_depth
         self.keep_uf = False
+        self.nonce_fork = True
         self.known = known or []  # [(finding_id, label_regex, expr_source)]
         # statistics
         self.n_paths = 0
@@ -884,6 +890,7 @@ class SymCtx:
         self.trace = []
         self.uf_apps = {}
         self.nonces = {}
+        self.real_nonces = {}
         self.nonce_by_text = {}
         self.path_claims = 0
         self.path_covers = set()
@@ -1156,16 +1163,32 @@ class SymCtx:
             if t2.eq(t):
                 return text
         # fork on equality with every value rendered before, so that textual
-        # equality <=> semantic equality on this path
-        for (t2, text) in list(self.nonces.values()):
-            if self.branch(t == t2):
-                return text
+        # equality <=> semantic equality on this path (harnesses whose code never
+        # compares rendered text switch this off: distinct terms then simply get
+        # distinct tokens)
+        if self.nonce_fork:
+            for (t2, text) in list(self.nonces.values()):
+                if self.branch(t == t2):
+                    return text
         n = len(self.nonces)
         text = str(700000000 + 7919 * (n + 1))
         # the rendered value must not collide with the nonce's own text when a
         # concrete number in the same file happens to be equal: the harness keeps
         # concrete integers below 600000000.
         self.nonces[n] = (t, text)
+        self.nonce_by_text[text] = x
+        return text
+
+    def render_real(self, x):
+        t = z3.simplify(x.t)
+        if z3.is_rational_value(t):
+            return repr(float(Fraction(t.numerator_as_long(), t.denominator_as_long())))
+        for (t2, text) in self.real_nonces.values():
+            if t2.eq(t):
+                return text
+        n = len(self.real_nonces)
+        text = "0.7%09d" % (7919 * (n + 1))
+        self.real_nonces[n] = (t, text)
         self.nonce_by_text[text] = x
         return text
 
